@@ -73,7 +73,7 @@ def plan(tier, seed):
     for mt in axioms.dissimilarity_metrics():
         shards.append(("feat", mt, 3))
         shards.append(("feat", mt, 4))
-        if tier == "thorough":
+        if tier == "thorough" or mt in ("euclidean", "manhattan"):
             shards.append(("feat", mt, 5))
     # the classifier left by learn() (every RNG answer sequence) is a trained classifier too
     shards += [("learn", pi) for pi in range(24)]
